@@ -50,6 +50,33 @@ def outcome (r : Res (List Texture)) : String :=
   | .err e => "err " ++ e.name
   | .ok ts => "ok " ++ texturesText ts
 
+/-- lexicographic order on byte strings (Rust's `[u8]::cmp`). -/
+def bytesLe : Bytes → Bytes → Bool
+  | [], _ => true
+  | _ :: _, [] => false
+  | a :: as, b :: bs => a < b || (a == b && bytesLe as bs)
+
+/-- `texture_vec_to_map` (layered_filesystem.rs:165-170): collected into a `HashMap` keyed by
+`filename` — a later texture with the same name replaces an earlier one — printed sorted by key. -/
+def toMap (ts : List Texture) : List Texture :=
+  let dedup := ts.foldl (fun acc t => (acc.filter fun u => u.name != t.name) ++ [t]) []
+  dedup.mergeSort (fun a b => bytesLe a.name b.name)
+
+/-- `LayeredFilesystem::read_{ctpk,bch,cgfx}_textures` = the direct reader collected into a map;
+`read_tpl_textures` = the direct reader. -/
+def fsOutcome (kind : String) (r : Res (List Texture)) : String :=
+  match r with
+  | .panic => "panic"
+  | .err e => "err " ++ e.name
+  | .ok ts =>
+    if kind == "tpl" then
+      (ts.zipIdx.foldl (fun s (t, i) => s ++ " " ++ toString i ++ " " ++ hexOfBytes t.name ++ " " ++ toString t.width ++ " " ++
+        toString t.height ++ " " ++ hexOfBuf t.pixels) ("ok " ++ toString ts.length))
+    else
+      let m := toMap ts
+      m.foldl (fun s t => s ++ " " ++ hexOfBytes t.name ++ " " ++ hexOfBytes t.name ++ " " ++ toString t.width ++ " " ++
+        toString t.height ++ " " ++ hexOfBuf t.pixels) ("ok " ++ toString m.length)
+
 def prefixRuns (p : Profile) (kind : String) (file : Buf) : String := Id.run do
   let mut runs : Array (Nat × Nat × String) := #[]
   for k in [0:file.size] do
@@ -110,6 +137,18 @@ def judgeTextures (kind : String) : List Spec.Tex.Tex → List String → String
       if v == "ok" then judgeTextures kind ts rest else v
   | _, _ => "FAIL texture count differs from the packed list"
 
+/-- impl fields after `ok <n>`: 5 per texture (key, filename, w, h, pixels): the key must equal the
+texture's own `filename` (TPL: the index), and the remaining four fields are judged as for `read`. -/
+def judgeFsEntries (kind : String) : Nat → List Spec.Tex.Tex → List String → String
+  | _, [], [] => "ok"
+  | i, t :: ts, key :: name :: w :: h :: px :: rest =>
+    if kind == "tpl" && key != toString i then s!"FAIL texture {i} reported at position {key}"
+    else if kind != "tpl" && key != name then s!"FAIL map key {key} but the texture's filename is {name}"
+    else
+      let v := judgeTextures kind [t] [name, w, h, px]
+      if v == "ok" then judgeFsEntries kind (i + 1) ts rest else v
+  | _, _, _ => "FAIL texture count differs from the packed list"
+
 def badMagic (kind : String) (file : Buf) : Bool :=
   match kind with
   | "bch" => file.size ≥ 4 && Spec.Tex.u32At file 0 != 0x484342
@@ -169,6 +208,29 @@ def family : Family where
           else if i.getD 2 "" != "ok" then "FAIL a conforming container must be read, got " ++ " ".intercalate ((i.drop 2).take 2)
           else if (i.getD 3 "").toNat! ≠ texs.length then s!"FAIL {i.getD 3 ""} textures returned, {texs.length} packed"
           else judgeTextures kind texs (i.drop 4)
+        out m o
+      else if op == "fsread" then
+        -- c = id :: "fsread" :: kind :: loc :: file :: n :: texs…
+        let file := bufOfHex n
+        let n' := rest.headD "~"
+        let claimed := n' != "~"
+        let parsed := if claimed then parseTexs kind file (rest.drop 1) else []
+        let texs := parsed.map (·.1)
+        let exts := parsed.map (·.2)
+        let m := fsOutcome kind (readKind p kind file)
+        let names := texs.map (·.name)
+        let o :=
+          if !claimed then
+            (if badMagic kind file then (if i.getD 2 "" == "err" then "ok" else "FAIL wrong magic must be rejected, got " ++ " ".intercalate ((i.drop 2).take 2)) else "ok skip")
+          else if n2Ambiguous kind file then "ok skip N2"
+          else if !(conforms kind file texs && extentsAgree kind file exts && texs.length == n'.toNat!) then
+            "FAIL generated file does not satisfy the container specification (harness/spec disagreement)"
+          else if kind != "tpl" && names.eraseDups.length != names.length then "ok skip duplicate names"
+          else if i.getD 2 "" != "ok" then "FAIL a conforming container must be read, got " ++ " ".intercalate ((i.drop 2).take 2)
+          else if (i.getD 3 "").toNat! ≠ texs.length then s!"FAIL {i.getD 3 ""} textures returned, {texs.length} packed"
+          else
+            let sorted := if kind == "tpl" then texs else texs.mergeSort (fun a b => bytesLe a.name b.name)
+            judgeFsEntries kind 0 sorted (i.drop 4)
         out m o
       else if op == "prefixes" then
         let m := prefixRuns p kind file
